@@ -81,6 +81,8 @@ class Rec:
             return True
         if r == "unknown":
             self.inconclusive.append(f"{self.cfg.get('name')}: {name}: solver unknown")
+            if len(self.inconclusive) >= 3:
+                self.stats.stop = True  # the configuration is undecided already; the float oracle of the harness decides 1 vs 3
             return False
         fp = self.fp_override or fingerprint or name
         n = self._fp_count.get(fp, 0)
